@@ -123,6 +123,40 @@ pub fn strategy() -> impl Strategy<Value = Case> {
     })
 }
 
+/// many connects in flight between the two hook points at once (up to the capacity the maps are declared with, 200):
+/// n threads pass connect4 for protected endpoints, then all reach tcp_connect in FIFO / LIFO / shuffled order, then
+/// the agent accepts them all; every one of them must have its own, correct record
+pub fn inflight_strategy() -> impl Strategy<Value = Case> {
+    (2usize..=200, 0u8..3, any::<u64>(), prop::option::weighted(0.5, 0u8..200)).prop_map(|(n, order, seed, agent)| {
+        let tasks: Vec<Task> = (0..n).map(|i| Task { tgid: 1000 + (i / 3) as u32, tid: 5000 + i as u32, uid: [0u32, 1000, 1001, 33][i % 4], gid: [0u32, 100, 27, 0][(i / 2) % 4] }).collect();
+        let mut ops = vec![Op::SetPolicy { ep: 0, on: true }, Op::SetPolicy { ep: 1, on: true }, Op::SetPolicy { ep: 2, on: true }];
+        for i in 0..n {
+            ops.push(Op::Begin { task: i as u8, ep: (i % 3) as u8, udp: false });
+        }
+        let mut idx: Vec<usize> = (0..n).collect();
+        match order {
+            1 => idx.reverse(),
+            2 => {
+                let mut x = seed | 1;
+                for i in (1..n).rev() {
+                    x ^= x << 13;
+                    x ^= x >> 7;
+                    x ^= x << 17;
+                    idx.swap(i, (x % (i as u64 + 1)) as usize);
+                }
+            }
+            _ => {}
+        }
+        for i in idx {
+            ops.push(Op::Finish { task: i as u8, reuse: false });
+        }
+        for _ in 0..n {
+            ops.push(Op::Accept);
+        }
+        Case { tasks, agent: agent.filter(|a| (*a as usize) < n), ops }
+    })
+}
+
 /// the same case space, addressed by the words of a fuzz input (see `crate::words`): one word per task and per operation
 pub fn case_from_words(w: &mut crate::words::Words) -> Case {
     use crate::words::draw;
@@ -135,7 +169,7 @@ pub fn case_from_words(w: &mut crate::words::Words) -> Case {
     Case { tasks, agent, ops }
 }
 
-pub const RULE: &str = "generator: histories of 7-50 operations over 2-6 tasks (threads of 4 processes, uid and gid drawn independently so that uid != gid is the norm, uid 0 with gid != 0 and the reverse included) and 9 endpoints (the three protected ones, port +/- 1, neighbouring address, byte-swapped port, byte-swapped address, an unrelated address, the proxy's own): the agent's pid placed in the skip map before any connect and SetPolicy(endpoint, on/off), both performed with the agent's own encoders (destination_entry / sock_addr_skip_process_entry bytes go into the program's maps, string_to_ip(PROXY_AGENT_IP) for the value), Begin = run connect4 on a bpf_sock_addr filled as the kernel fills it (network byte order, TCP or UDP), Finish = allocate a source port and run the tcp_connect kprobe on a sock_common built from the possibly rewritten address, Abort = the kernel gives the connect up between the hooks, Drop = a redirected connection is reset before the agent accepts it (its record is never consumed) and 30% of the later Finish operations get such a port again, Accept = the agent's decode path (sock_addr_audit_key::from_source_port, sock_addr_audit_entry::from_array, AuditEntry accessors) + remove. Begin/Finish of different tasks interleave freely. oracle (Rust reference model): rewritten to 127.0.0.1:3080 iff (ip, port, protocol) is in the policy at Begin and the process is not skipped, otherwise the context is byte-identical; after Finish a record keyed (TCP, source port) exists iff the connect was rewritten and decodes to logon_id = uid, process_id = tgid, is_admin = (uid == 0), original ip and port; no record for any other connect; ip_to_string/string_to_ip round-trip; the byte-order constants equal their dotted forms. non-trivial: >= 2 tasks in flight between the phases, >= 1 protected and >= 1 unprotected connect, and >= 1 task with uid != gid; distinct by hash of the history.";
+pub const RULE: &str = "generator: histories of 7-50 operations over 2-6 tasks (threads of 4 processes, uid and gid drawn independently so that uid != gid is the norm, uid 0 with gid != 0 and the reverse included) and 9 endpoints (the three protected ones, port +/- 1, neighbouring address, byte-swapped port, byte-swapped address, an unrelated address, the proxy's own): the agent's pid placed in the skip map before any connect and SetPolicy(endpoint, on/off), both performed with the agent's own encoders (destination_entry / sock_addr_skip_process_entry bytes go into the program's maps, string_to_ip(PROXY_AGENT_IP) for the value), Begin = run connect4 on a bpf_sock_addr filled as the kernel fills it (network byte order, TCP or UDP), Finish = allocate a source port and run the tcp_connect kprobe on a sock_common built from the possibly rewritten address, Abort = the kernel gives the connect up between the hooks, Drop = a redirected connection is reset before the agent accepts it (its record is never consumed) and 30% of the later Finish operations get such a port again, Accept = the agent's decode path (sock_addr_audit_key::from_source_port, sock_addr_audit_entry::from_array, AuditEntry accessors) + remove. Begin/Finish of different tasks interleave freely. oracle (Rust reference model): rewritten to 127.0.0.1:3080 iff (ip, port, protocol) is in the policy at Begin and the process is not skipped, otherwise the context is byte-identical; after Finish a record keyed (TCP, source port) exists iff the connect was rewritten and decodes to logon_id = uid, process_id = tgid, is_admin = (uid == 0), original ip and port; no record for any other connect; ip_to_string/string_to_ip round-trip; the byte-order constants equal their dotted forms. second engine: 2-200 threads (the capacity the maps are declared with) pass connect4 for protected endpoints before any of them reaches tcp_connect, then finish in FIFO / LIFO / shuffled order and are all accepted. non-trivial: >= 2 tasks in flight between the phases, >= 1 protected and >= 1 unprotected connect, and >= 1 task with uid != gid; distinct by hash of the history.";
 
 #[derive(Clone, Debug)]
 pub struct Pending {
